@@ -1,0 +1,11 @@
+// Copyright (c) The Thanos Community Authors.
+// Licensed under the Apache License 2.0.
+
+//go:build !verif
+
+// Package verifhook provides named yield points used by runtime verification.
+// Without the `verif` build tag every call is an inlinable no-op.
+package verifhook
+
+// Point marks a goroutine hand-off site.
+func Point(string, int) {}
